@@ -37,8 +37,17 @@ search       unsound  real bounds of a multi-column file -> real manifest (sibli
                e2e      scan(filter) with pruning vs the same scan with pruning disabled, real tables (single appends,
                         multi-append transactions, partial deletes that rewrite a manifest, retried commits; schemas with whatever
                         field ids the constructor accepts, incl. a family of same-kind columns under ids that meet as str(); appends
-                        that pass schema= explicitly with the table's columns under re-ordered ids, accepted or refused)
-               codec    _decode_bound(_encode_bound(v)) is v, type-faithfully
+                        that pass schema= explicitly with the table's columns under re-ordered ids, accepted or refused);
+                        in / not_in value sets held by every iterable kind (list, set, frozenset, dict views, range, deque,
+                        iterator, generator, map object -- each scan gets a fresh object, harness/lib/sqlref.py realise); tables
+                        WRITTEN by a process in one time zone and READ by a process in another (harness/lib/procconf.py)
+               codec    _decode_bound(_encode_bound(v)) is v, type-faithfully -- with the encoding and the decoding process in
+                        every time zone of procconf.TZ_CHOICES (the `codec` correspondence demands the same of the real codec)
+Finding    : (shared with C12) an in / not_in value set was iterated twice -- by the expression builder, then by file pruning: a
+             one-shot iterable was empty for pruning, which skipped every file; scan(filter={'a': ('in', iter([7]))}) returned []
+             with pruning and the row without (VIOLATION scan-differs:in-one-shot-value-set on the unchanged tree; repaired in
+             parse_filter_dict, which materialises the value set once).  The Coq model holds value sets as lists (`flval`): the
+             repaired parser hands pruning a list (Props/C12.v C12_value_set_kind_irrelevant).
 """
 from __future__ import annotations
 
